@@ -30,15 +30,20 @@ def main():
         if r.returncode != 0:
             print(r.stdout); return 2
     sh("git checkout -q -- .", cwd=repo)
-    h = os.path.join(S, "harness")
-    shutil.rmtree(h, ignore_errors=True)
-    shutil.copytree(os.path.join(V, "harness"), h, ignore=shutil.ignore_patterns("target"))
+    # a private snapshot of the whole framework, so that edits to /verif while the sweep runs cannot disturb it
+    sv = os.path.join(S, "verif")
+    os.makedirs(sv, exist_ok=True)
+    r = sh("rsync -a --delete --exclude work --exclude .git --exclude evidence --exclude seeded %s/ %s/" % (V, sv))
+    if r.returncode != 0:
+        print(r.stdout); return 2
     for sub in ("dh", "hh"):
-        ct = os.path.join(h, sub, "Cargo.toml")
+        ct = os.path.join(sv, "harness", sub, "Cargo.toml")
         if os.path.exists(ct):
             t = open(ct).read().replace('path = "/repo"', 'path = "%s"' % repo)
             open(ct, "w").write(t)
-    env = dict(os.environ, DESERR_REPO=repo, VERIF_HARNESS_DIR=h, VERIF_WORK=os.path.join(S, "work"), VERIF_EVID=os.path.join(S, "evidence"))
+    env = dict(os.environ, DESERR_REPO=repo)
+    for k in ("VERIF_HARNESS_DIR", "VERIF_WORK", "VERIF_EVID"):
+        env.pop(k, None)
     results = {}
     for sid in a.seeds:
         d = os.path.join(V, "seeded", sid)
@@ -51,11 +56,11 @@ def main():
             continue
         res = {}
         for p in props:
-            r = sh("%s %s %s --tier %s" % (sys.executable, os.path.join(V, "tools", "check.py"), p, a.tier), cwd=V, env=env)
+            r = sh("%s %s %s --tier %s" % (sys.executable, os.path.join(sv, "tools", "check.py"), p, a.tier), cwd=sv, env=env)
             lines = [l for l in r.stdout.splitlines() if l.startswith(("VIOLATION", "OK ", "KNOWN-FINDING", "TOOL-ERROR"))]
             res[p] = {"rc": r.returncode, "verdict": "caught" if r.returncode == 1 else ("missed" if r.returncode == 0 else "tool-error"),
                       "lines": lines[:3]}
-            ev = os.path.join(S, "evidence", p + ".json")
+            ev = os.path.join(sv, "evidence", p + ".json")
             if os.path.exists(ev):
                 try:
                     res[p]["by_property"] = json.load(open(ev))["coverage"].get("violations_by_property_in_this_trace")
